@@ -650,6 +650,7 @@ def c16(tier):
     jobs = [T("utils", "VerifC16_TypeLine", {"N": n, "D": d}), T("utils", "VerifC16_ExtendedTypeLine", {"N": n, "D": d}),
             T("utils", "VerifC16_ConditionLine", {"N": n, "D": d}), T("utils", "VerifC16_RelationLine", {"N": n, "D": d}),
             T("utils", "VerifC16_Column", {"N": 3}),
+            T("utils", "VerifC08_OddLines", {"T": W(tier, 1, 2)}), T("utils", "VerifC08_FreeLine", {"L": W(tier, 6, 8)}),
             T("transformer", "VerifC03_PrePass", {"N": W(tier, 6, 8)}),
             T("transformer", "VerifC07_Merge", {"SCEN": 1, "N": 2, "NR": 1, "SEPS": 1}),
             T("transformer", "VerifC07_Merge", {"SCEN": 5, "N": 1, "NR": 1}),
@@ -658,7 +659,8 @@ def c16(tier):
             T("transformer", "VerifC16_SyntaxError")]
     out = engine_a_check("C16", tier, jobs,
                          {"VerifC16_TypeLine": ["type"], "VerifC16_ExtendedTypeLine": ["extend"], "VerifC16_ConditionLine": ["condition"],
-                          "VerifC16_RelationLine": ["relation"], "VerifC16_Column": ["column"], "VerifC03_PrePass": ["lemmas-checked"], "VerifC07_Merge": ["rejected"], "VerifListener_Doc": ["rejected"], "VerifC16_SyntaxError": ["recorded"]},
+                          "VerifC16_RelationLine": ["relation"], "VerifC16_Column": ["column"],
+                          "VerifC08_OddLines": ["declaration", "no-declaration"], "VerifC08_FreeLine": ["declaration", "no-declaration"], "VerifC03_PrePass": ["lemmas-checked"], "VerifC07_Merge": ["rejected"], "VerifListener_Doc": ["rejected"], "VerifC16_SyntaxError": ["recorded"]},
                          ["ANTLR token positions with respect to the cleaned text are outside (lexer/parser not encoded)",
                           "declaration lines follow the layout <indent><keyword> <name><tail>"], "",
                          bounds={"line lookups": "<= %d declarations, names of length 1..%d over {a,e,t,_,.,-}, 5 indents (blanks/tabs), 3 keyword-name separators, 2-3 tails" % (d + 1, n),
@@ -719,13 +721,23 @@ def c08(tier):
             T("transformer", "VerifC07_Merge", {"SCEN": 0, "F": 2, "DECLS": 2, "RELS": 1, "CONDS": 1, "FAULTS": 1, "N": 1, "NR": 1}),
             LJ("VerifC08_ListenerRecovery", tier, NODES=1, DEPTH=0, SIBLINGS=0, CONDS=1, FIXLAYOUT=1, PARAMS=1, EXTEND=1, MODULES=1),
             T("graph", "VerifC08_GraphDegenerate", {"DEPTH": W(tier, 1, 2)}),
-            T("graph", "VerifC08_PlainGraphDegenerate")]
+            T("graph", "VerifC08_PlainGraphDegenerate"),
+            T("utils", "VerifC08_OddLines", {"T": W(tier, 1, 2)}), T("utils", "VerifC08_FreeLine", {"L": W(tier, 6, 8)}),
+            # work clause: instructions executed <= WA + WB*n*n (n relations); the unchanged tree needs about 1400*n
+            T("graph", "VerifC08_BoundedWork", {"D": W(tier, 16, 40), "WA": 100000, "WB": 1000}),
+            # printer: about 160*n on the unchanged tree; merge: about 340*n
+            T("transformer", "VerifC08_PrinterWork", {"D": W(tier, 24, 48), "WA": 20000, "WB": 200}),
+            T("transformer", "VerifC08_MergeWork", {"D": W(tier, 12, 24), "WA": 50000, "WB": 200})]
     out = engine_a_check("C08", tier, jobs, {"VerifC08_PrinterDegenerate": ["accepted", "rejected"], "VerifC08_ConditionsDegenerate": ["accepted", "rejected"], "VerifC15_Manifest": ["accepted", "rejected"],
-                                             "VerifC16_SyntaxError": ["recorded"], "VerifC07_Merge": ["rejected"], "VerifC08_ListenerRecovery": ["walked"], "VerifC08_GraphDegenerate": ["accepted", "rejected"], "VerifC08_PlainGraphDegenerate": ["accepted"]},
-                         ["arbitrary bytes through the ANTLR lexer/parser, protojson and yaml.v3 and the complexity claim are outside (not encoded)",
+                                             "VerifC16_SyntaxError": ["recorded"], "VerifC07_Merge": ["rejected"], "VerifC08_ListenerRecovery": ["walked"], "VerifC08_GraphDegenerate": ["accepted", "rejected"], "VerifC08_PlainGraphDegenerate": ["accepted"],
+                                             "VerifC08_OddLines": ["declaration", "no-declaration"], "VerifC08_FreeLine": ["declaration", "no-declaration"],
+                                             "VerifC08_BoundedWork": ["weighted-accepted", "plain-accepted"], "VerifC08_PrinterWork": ["printed"], "VerifC08_MergeWork": ["merged", "rejected"]},
+                         ["arbitrary bytes through the ANTLR lexer/parser, protojson and yaml.v3 are outside (not encoded); the complexity claim is decided for the two graph builders, the printer and the module merger (behind its parser stub) only, on families of layered/nested models whose path count is exponential in the depth while their size is linear (instructions executed by the executor <= A + B*n*n: graphs 100000 + 1000*n*n for n relations, the unchanged tree needs about 1400*n; printer 20000 + 200*n*n for n rewrite nodes, unchanged about 160*n; merge 50000 + 200*n*n for n declarations, unchanged about 340*n); the lexer (form feeds) and parser are outside",
                           "decided: no Go run-time panic on any explored path of the hand-written code (panic monitor)"], "",
                          bounds={"printer": "degenerate rewrite trees <= %d nodes (nil children, unset oneofs, operators without operands), nil metadata/restrictions/type definitions, 7 degenerate condition shapes" % W(tier, 4, 5),
-                                 "fga.mod": "arbitrary yaml node kinds (stub)"})
+                                 "fga.mod": "arbitrary yaml node kinds (stub)",
+                                 "line lookups": "lines cut out of a declaration at any character, 5 indents, 4 blank runs, <= %d arbitrary characters behind; every line of length <= %d over {t,y,p,e,a,blank,tab}" % (W(tier, 1, 2), W(tier, 6, 8)),
+                                 "work": "graphs: 8 layered families (union/intersection/exclusion/tuple-to-userset diamonds, userset and tuple cycles), depth 1..%d; printer: 12 nestings (alternating operators, one operator throughout; nested operand first or second), depth 1..%d; merge: 1..%d module files, with and without a conflict per file" % (W(tier, 16, 40), W(tier, 24, 48), W(tier, 12, 24))})
     out.finish()
 
 
